@@ -550,3 +550,41 @@ def m_litdict_get(x, recv, args, e, p, site):
     if isinstance(recv.x, dict) and not recv.x:
         yield p, (args[1] if len(args) > 1 else NONE)
     else: raise Unsupported(site + ' get on non-empty literal dict')
+
+
+# ------------------------------------------------------------------ re.match / re.fullmatch with a literal or module-level compiled pattern
+def _resolve_pattern(x, node):
+    """(pattern text, flags) for a pattern expression: string literal, or a module-level NAME = re.compile(<literal>[, flags])"""
+    import re as _re
+    if isinstance(node, ast.Constant) and isinstance(node.value, str): return node.value, 0
+    if isinstance(node, ast.Name) and node.id in x.module_consts:
+        v = x.module_consts[node.id]
+        if isinstance(v, ast.Call) and ast.unparse(v.func) == 're.compile' and isinstance(v.args[0], ast.Constant):
+            flags = 0
+            if len(v.args) > 1: flags = eval(compile(ast.Expression(v.args[1]), '<flags>', 'eval'), {'re': _re})
+            return v.args[0].value, flags
+    raise Unsupported('pattern expression ' + ast.unparse(node))
+
+
+def h_re_match(full):
+    def h(x, e, p, site):
+        from . import rx
+        pat, flags = _resolve_pattern(x, e.args[0])
+        try: L = rx.match_language(pat, flags, full=full)
+        except rx.RxUnsupported as ex: raise Unsupported(site + f' regex outside the translated subset: {ex}')
+        for p1, vs in x.ev_seq([e.args[1]], p):
+            if isinstance(vs, Exc):
+                yield p1, vs; continue
+            s = vs[0]
+            if s.sort == 'J':
+                q = p1.fork(tag(s.t) != TAG['str'])
+                if sat(q.pc): yield q, Exc('TypeError', site)
+                p1 = p1.fork(tag(s.t) == TAG['str']); s = Str(sof(s.t))
+                if not sat(p1.pc): continue
+            if s.sort != 'str': raise Unsupported(site + ' re.match on ' + s.sort)
+            yield p1, Val('matchobj', z3.InRe(s.t, L), x={'pattern': pat, 'flags': flags})
+    return h
+
+
+REG.funcs['re.match'] = h_re_match(False)
+REG.funcs['re.fullmatch'] = h_re_match(True)
